@@ -217,6 +217,12 @@ def gen_program(tape, feat):
         roots.append(gen_node(feat["max_depth"]))
     prog = dict(T=T, t0=t0, limit=limit, real=real, nodes=nodes, roots=roots,
                 spares=spare_roots, kbint_sleep=None)
+    # how the run is configured: at construction, or through the arguments of do()/ado()
+    # (drawn last so that older replay files keep their meaning)
+    if feat.get("via_args", True):
+        prog["args"] = dict(doers=tape.flag("arg_doers", 1, 3), limit=tape.flag("arg_limit", 1, 3),
+                            tyme=tape.flag("arg_tyme", 1, 3), ctor_tyme=tape.pick("ctor_tyme", [0.0, 3.0, 50.5]),
+                            ctor_limit=tape.pick("ctor_limit", [None, 1000.0, 0.5]))
     if real and feat.get("kbint_sleep") and tape.flag("kbint_sleep", 1, 2):
         prog["kbint_sleep"] = tape.draw("kbint_sleep_ix", 6)
     return prog
@@ -234,7 +240,7 @@ def prog_readable(prog):
             d["steps"] = n["steps"]
         return d
     return dict(doist=dict(tock=prog["T"], tyme=prog["t0"], limit=prog["limit"], real=prog["real"],
-                           kbint_sleep=prog.get("kbint_sleep")),
+                           kbint_sleep=prog.get("kbint_sleep"), via_args=prog.get("args")),
                 roots=prog["roots"], spares=prog["spares"],
                 nodes=[node(prog["nodes"][k]) for k in sorted(prog["nodes"])])
 
@@ -625,14 +631,25 @@ def build(prog, res=None):
         run.st[nid].parent = parent
         return obj
 
-    doist = TDoist(tock=prog["T"], tyme=prog["t0"], real=prog["real"], limit=prog["limit"])
+    args = prog.get("args") or {}
+    ctor_tyme = args["ctor_tyme"] if args.get("tyme") else prog["t0"]
+    ctor_limit = args["ctor_limit"] if (args.get("limit") and prog["limit"] is not None) else prog["limit"]
+    doist = TDoist(tock=prog["T"], tyme=ctor_tyme, real=prog["real"], limit=ctor_limit)
     run.doist = doist
     roots = [make(r, doist) for r in prog["roots"]]
     for s in prog["spares"]:
         if s not in run.objs:
             make(s, None)
     # children of spare dodoers got parent=obj inside make; spare roots have parent None
-    doist.doers = roots
+    run.do_kwargs = {}
+    if args.get("doers"):
+        run.do_kwargs["doers"] = roots
+    else:
+        doist.doers = roots
+    if args.get("limit") and prog["limit"] is not None:
+        run.do_kwargs["limit"] = prog["limit"]
+    if args.get("tyme"):
+        run.do_kwargs["tyme"] = prog["t0"]
     run.TDoist = TDoist
     return run
 
@@ -658,11 +675,11 @@ def execute(prog, res=None, mode="do", vloop_factory=None, noise=None):
         run.ev("do_begin", mode)
         try:
             if mode == "do":
-                doist.do()
+                doist.do(**run.do_kwargs)
             else:
                 loop = vloop_factory()
                 try:
-                    loop.run_with_noise(doist.ado(), noise or [])
+                    loop.run_with_noise(doist.ado(**run.do_kwargs), noise or [])
                 finally:
                     loop.close()
             run.result = ("return",)
